@@ -17,6 +17,9 @@ var (
 	_ TrackNoSelector = &TrackNoSelectorImpl{}
 )
 
+// maxTrackNum is the largest track count a Standard MIDI File header can declare (16 bits).
+const maxTrackNum = 1<<16 - 1
+
 type TrackNoSelectorImpl struct {
 	trackNum int
 }
@@ -24,6 +27,9 @@ type TrackNoSelectorImpl struct {
 func NewTrackNoSelector(trackNum int) (*TrackNoSelectorImpl, error) {
 	if trackNum < 1 {
 		return nil, errorx.Invalid("TrackNoSelector requires positive trackNum, %d", trackNum)
+	}
+	if trackNum > maxTrackNum {
+		return nil, errorx.Invalid("TrackNoSelector requires trackNum up to %d, %d", maxTrackNum, trackNum)
 	}
 	return &TrackNoSelectorImpl{
 		trackNum: trackNum,
